@@ -200,6 +200,8 @@ def run(res, tier, seed, shard, nshards):
                     res.count("block_structure_strings", 2)
     # 4. receive path -----------------------------------------------------------
     recv_path(res, W, tier, rng, shard, nshards)
+    # 5. through WebSocketApp ---------------------------------------------------
+    app_path(res, W, tier, rng, shard, nshards)
 
 
 CORPUS = [
@@ -230,11 +232,13 @@ def recv_path(res, W, tier, rng, shard, nshards):
     for _ in range(10 if tier == "quick" else 60):
         s = "".join(chr(rng.choice([rng.randrange(0x80), rng.randrange(0x80, 0x800), rng.randrange(0x800, 0xD800), rng.randrange(0x10000, 0x110000)])) for _ in range(rng.randrange(1, 6)))
         corpus.append(s.encode())
+    tricky = {t.encode() for t in H.TRICKY_TEXTS}
+    corpus += sorted(tricky)
     idx = 0
     for data in corpus:
         valid = U.is_valid(data)
         cls = classify(data)
-        for frags in fragmentations(data, 3):
+        for frags in fragmentations(data, 2 if data in tricky else 3):
             for skip in (False, True):
                 for path in ("text", "text-recv_data", "close", "close-3000", "close-4999", "close-1011"):
                     idx += 1
@@ -248,6 +252,69 @@ def recv_path(res, W, tier, rng, shard, nshards):
 import logging as _logging
 
 _NULL = _logging.NullHandler()
+
+
+def app_path(res, W, tier, rng, shard, nshards):
+    """The same question through WebSocketApp (with and without on_cont_message, which switches the connection to per-fragment
+    delivery): an ill-formed text message never reaches on_message / on_data, a well-formed one arrives as the str."""
+    from .. import appsim
+    corpus = list(CORPUS) + [t.encode() for t in H.TRICKY_TEXTS[:6]]
+    idx = 0
+    for data in corpus:
+        valid = U.is_valid(data)
+        cls = classify(data)
+        for frags in fragmentations(data, 2):
+            for cont_cb in (False, True):
+                for skip in (False, True):
+                    idx += 1
+                    if idx % nshards != shard or (tier == "quick" and idx % 3):
+                        continue
+                    app_case(res, W, appsim, data, frags, cont_cb, skip, valid, cls)
+
+
+def app_case(res, W, appsim, data, frags, cont_cb, skip, valid, cls):
+    frames = b"".join(R.encode(R.TEXT if i == 0 else R.CONT, f, fin=1 if i == len(frags) - 1 else 0) for i, f in enumerate(frags))
+    script = [(0.5, "frames", frames), (1.0, "frames", R.encode(R.TEXT, b"after")), (1.5, "close", b"\x03\xe8")]
+    cbs = ["on_open", "on_message", "on_data", "on_error", "on_close"] + (["on_cont_message"] if cont_cb else [])
+    case = {"gen": "app", "data": data, "frags": [len(f) for f in frags], "on_cont_message": cont_cb, "skip_utf8_validation": skip}
+
+    def scen():
+        H.reset_process_state()
+        run = appsim.AppRun([dict(outcome="ok", script=script)], callbacks=cbs, last_repeats=False)
+        run.run_forever(skip_utf8_validation=skip)
+        return run
+
+    run, _ = H.in_sim(scen, horizon=200, watchdog=60)
+    res.count("app_cases")
+    res.case(("app", data, tuple(len(f) for f in frags), cont_cb, skip), nontrivial=any(b >= 0x80 for b in data))
+    msgs = [a[0] for (t, n, a, ci, ac) in run.trace if n == "on_message"]
+    datas = [a for (t, n, a, ci, ac) in run.trace if n == "on_data"]
+    conts = [a for (t, n, a, ci, ac) in run.trace if n == "on_cont_message"]
+    errors = [a[0] for (t, n, a, ci, ac) in run.trace if n == "on_error"]
+    whole = len(frags) == 1
+    if valid:
+        if skip:
+            return  # with validation off the application gets bytes or str depending on the path: not part of the statement
+        if cont_cb and not whole:
+            # per-fragment delivery: the fragments arrive one by one (text fragments as they are)
+            return
+        if data.decode("utf-8") not in msgs:
+            res.violation("recv-mismatch", f"app path: well-formed text {data.hex()} ({cls}) frags={case['frags']} on_cont_message={cont_cb}: on_message got {msgs!r}, errors {errors!r}",
+                          case, input_class=cls, skip=skip, path="app", outcome="not-delivered")
+        return
+    if skip:
+        return
+    # ill-formed, validation on: neither the whole payload nor (for a single frame) anything else of it may be handed over as a message
+    leaked = [m for m in msgs if (m.encode("utf-8", "surrogateescape") if isinstance(m, str) else bytes(m)) == data and data != b"after"]
+    leaked_data = [a for a in datas if a and (a[0].encode("utf-8", "surrogateescape") if isinstance(a[0], str) else bytes(a[0])) == data and (len(a) < 3 or a[2])]
+    if whole and (leaked or leaked_data):
+        res.violation("recv-mismatch", f"app path: ill-formed text {data.hex()} ({cls}) on_cont_message={cont_cb}: delivered to on_message {leaked!r} / on_data {leaked_data!r}; errors {errors!r}",
+                      case, input_class=cls, skip=skip, path="app", outcome="delivered")
+    elif not cont_cb and (leaked or leaked_data):
+        res.violation("recv-mismatch", f"app path: ill-formed fragmented text {data.hex()} ({cls}): delivered to on_message {leaked!r} / on_data {leaked_data!r}",
+                      case, input_class=cls, skip=skip, path="app", outcome="delivered")
+    else:
+        res.count("app_ill_formed_not_delivered")
 
 
 def one_recv_case(res, W, data, frags, skip, path, valid, cls):
